@@ -524,6 +524,11 @@ def oracle_c09(run):
             if sat:
                 fails.append(("C09/nocandidate-but-candidate-exists/" + region, {"req": str(req), "satisfying": sat}))
         # the chains reported by the CLI must be real: checked in the CLI stream
+    elif run.outcome == "ok":
+        # "a solution": nothing of the conflict machinery may be left in what is returned
+        left = sorted(k for k in run.graph.nodes if k.startswith("#bad#"))
+        if left:
+            fails.append(("C09/success-with-temporary-exclusion-left/" + region, {"nodes": left}))
     return fails
 
 
